@@ -94,6 +94,14 @@ pub fn run(cli: &Cli, rep: &Report) {
         vec![Seg::C(30000), Seg::D(20000, 20000), Seg::X(30000)],
         vec![Seg::X(300_000)],
         vec![Seg::Z((2 << 20) + 1)],
+        // LZMA2 state resets in mid-stream: compressible data (rep distances, probabilities and the state machine leave
+        // their initial values), uncompressed chunks, then data that is coded with rep matches / short-period matches
+        // straight after the reset; both sides must restart from the same initial coder state
+        vec![Seg::C(5000), Seg::R(140_000), Seg::P(3, 5000)],
+        vec![Seg::P(5, 3000), Seg::R(140_000), Seg::P(5, 3000), Seg::C(3000)],
+        vec![Seg::Z(1000), Seg::R(140_000), Seg::Z(3000)],
+        vec![Seg::C(5000), Seg::R(140_000), Seg::C(5000)],
+        vec![Seg::X(20_000), Seg::R(70_000), Seg::X(20_000), Seg::R(70_000), Seg::D(1, 4000)],
     ];
     let n_micro = inputs.len();
     inputs.extend(shapes.iter().cloned().map(Input::Shape));
@@ -253,6 +261,34 @@ pub fn run(cli: &Cli, rep: &Report) {
             flush_cov(rep);
         },
     );
+    if cli.only.is_none() {
+        for dir in ["out", "in"] {
+            if rep.get(&format!("mech.{dir}.state_reset_after_uncompressed")) == 0 {
+                rep.machinery_error(format!("vacuous: no raw LZMA2 stream of direction '{dir}' contains a state-reset chunk after an uncompressed chunk"));
+            }
+        }
+    }
+}
+
+/// Which LZMA2 chunk kinds occurred in the raw LZMA2 streams of one direction (mechanism coverage).
+fn count_controls(rep: &Report, dir: &str, comp: &[u8]) {
+    let Some((ctrls, _, _)) = walk_lzma2(comp) else { return };
+    let mut prev_uncompressed = false;
+    for (i, c) in ctrls.iter().enumerate() {
+        let kind = match *c {
+            1 => "uncompressed_dict_reset",
+            2 => "uncompressed",
+            0x80..=0x9F => "lzma_no_reset",
+            0xA0..=0xBF => "lzma_state_reset",
+            0xC0..=0xDF => "lzma_state_props_reset",
+            _ => "lzma_full_reset",
+        };
+        rep.add(&format!("mech.{dir}.{kind}"), 1);
+        if i > 0 && prev_uncompressed && (0xA0..=0xBF).contains(c) {
+            rep.add(&format!("mech.{dir}.state_reset_after_uncompressed"), 1);
+        }
+        prev_uncompressed = *c <= 2;
+    }
 }
 
 fn viol(rep: &Report, case: &Case, kind: &str, site: String, dir: &str, via: &str, detail: String) {
@@ -291,6 +327,9 @@ fn ours_to_ref(rep: &Report, case: &Case, cont: &Container, ops: &[Op], input: &
         Container::Lzip { .. } => refimpl::lzip_decode(&comp, limit),
         _ => return true,
     };
+    if matches!(cont, Container::Lzma2 | Container::Lzma2Chunk(_)) {
+        count_controls(rep, "out", &comp);
+    }
     match r {
         Ok(out) if out == input => true,
         Ok(out) => {
@@ -322,6 +361,9 @@ fn ref_to_ours(rep: &Report, case: &Case, how: &RefEnc, input: &[u8]) -> bool {
             return false;
         }
     };
+    if matches!(how, RefEnc::RawLzma2 { pre } if pre.is_empty()) {
+        count_controls(rep, "in", &comp);
+    }
     let limit = input.len() * 2 + (1 << 16);
     let r = catch(|| match how {
         RefEnc::RawLzma2 { pre } if !pre.is_empty() => {
